@@ -13,7 +13,7 @@ mvars == <<phase, day, spec>>
 NoSpec == [k |-> "none", n |-> 0, t |-> 0]
 AllNowDays == 0 .. (NowDays - 1)
 LeapYearDays == DayIndex(2024, 1, 1) .. DayIndex(2024, 12, 31)
-QuickDays == DayIndex(2023, 12, 1) .. DayIndex(2025, 1, 31)      \* the leap year with both year ends (quick tier)
+QuickDays == DayIndex(2023, 12, 20) .. DayIndex(2024, 3, 31)      \* year end, 31 January, leap February, 31 March (quick tier)
 MCInit == phase = 0 /\ day \in Days /\ spec = NoSpec
 MCNext == phase = 0 /\ phase' = 1 /\ day' = day /\ spec' \in Specs
 MCSpec == MCInit /\ [][MCNext]_mvars
